@@ -31,6 +31,8 @@ METHODS = ["Saliency", "GradientInput", "IntegratedGradients", "SmoothGrad", "Sq
            "GuidedBackprop", "GradCAM", "GradCAMPP", "Occlusion", "Rise", "Lime", "KernelShap", "SobolAttributionMethod",
            "HsicAttributionMethod"]
 METRICS = ["Deletion", "Insertion", "MuFidelity", "AverageStability"]
+WHITE_BOX = {"Saliency", "GradientInput", "IntegratedGradients", "SmoothGrad", "SquareGrad", "VarGrad", "DeconvNet",
+             "GuidedBackprop", "GradCAM", "GradCAMPP"}
 RANDOM = {"SmoothGrad", "SquareGrad", "VarGrad", "Rise", "Lime", "KernelShap", "SobolAttributionMethod",
           "HsicAttributionMethod", "MuFidelity", "AverageStability"}
 
@@ -80,6 +82,9 @@ def gen_history_case(rng, what):
         case["bs_none"] = True
         for c, n in zip(calls, (1, 3, 2)):
             c["n"] = n
+    case["standalone_relu"] = rng.random() < 0.5
+    if what in WHITE_BOX and rng.random() < 0.4:
+        case["ol"] = rng.choice([-1, "logits"])      # the model's own last layer, by index or by name: the same function
     if what in METHODS:
         case["reweight"] = True            # the model is updated after the calls; an explainer created THEN must explain it
     if what in ("Deletion", "Insertion"):
@@ -102,6 +107,16 @@ def generate(rng, tier):
     for _ in range(reps):
         for i, w in enumerate(METHODS + METRICS + METRICS):   # metrics twice: their state (stored inputs, masks) is the likeliest to leak
             cases.append(gen_history_case(rng, w))
+            if w in ("DeconvNet", "GuidedBackprop"):
+                # the two methods that rebuild the model: always with a stand-alone ReLU layer and / or an explicit
+                # output_layer (the user's own model object must keep its true gradients)
+                for sr, ol in ((True, None), (False, -1), (True, "logits")):
+                    c2 = gen_history_case(rng, w)
+                    c2["standalone_relu"] = sr
+                    c2.pop("ol", None)
+                    if ol is not None:
+                        c2["ol"] = ol
+                    cases.append(c2)
             if w in ("SmoothGrad", "SquareGrad", "VarGrad"):
                 # the gradient statistics derive their working batch size from N when batch_size is None: always covered
                 c2 = gen_history_case(rng, w)
@@ -210,11 +225,16 @@ def run_cache(case):
 _model_cache = {}
 
 
-def conv_model(seed, weights=None):
+def conv_model(seed, weights=None, standalone_relu=False):
     import tensorflow as tf
     rs = np.random.RandomState(seed % (1 << 31))
     inp = tf.keras.Input((8, 8, 1))
-    x = tf.keras.layers.Conv2D(2, 3, activation="relu", name="conv")(inp)
+    if standalone_relu:
+        # the non-linearity as a layer of its own (keras.layers.ReLU) instead of an `activation=` attribute
+        x = tf.keras.layers.Conv2D(2, 3, name="conv")(inp)
+        x = tf.keras.layers.ReLU(name="relu")(x)
+    else:
+        x = tf.keras.layers.Conv2D(2, 3, activation="relu", name="conv")(inp)
     x = tf.keras.layers.Flatten()(x)
     x = tf.keras.layers.Dense(3, name="logits")(x)
     m = tf.keras.Model(inp, x)
@@ -231,7 +251,7 @@ def content_map(inp):
     return above * 2 + cols
 
 
-def make_object(what, model, inputs=None, targets=None, baseline=None, bs=4):
+def make_object(what, model, inputs=None, targets=None, baseline=None, bs=4, ol=None):
     import xplique.attributions as A
     import xplique.metrics as M
     kw = dict(
@@ -242,6 +262,8 @@ def make_object(what, model, inputs=None, targets=None, baseline=None, bs=4):
         KernelShap=dict(nb_samples=12, map_to_interpret_space=content_map), SobolAttributionMethod=dict(grid_size=2, nb_design=4),
         HsicAttributionMethod=dict(grid_size=2, nb_design=8))
     if what in kw:
+        if ol is not None and what in WHITE_BOX:
+            return getattr(A, what)(model, batch_size=bs, output_layer=ol, **kw[what])
         return getattr(A, what)(model, batch_size=bs, **kw[what])
     if what in ("Deletion", "Insertion"):
         if baseline is None:
@@ -272,8 +294,20 @@ def run_history(case):
     import tensorflow as tf
     what = case["what"]
     BS = None if case.get("bs_none") else 4
-    model = conv_model(case["model_seed"])
+    SR = bool(case.get("standalone_relu"))
+    OL = case.get("ol")
+    model = conv_model(case["model_seed"], standalone_relu=SR)
     weights_before = [w.tobytes() for w in model.get_weights()]
+
+    def user_model_fingerprint():
+        """forward values AND input gradient of the USER's model object, on a batch size no explainer call uses"""
+        xs = tf.constant(((np.arange(5 * 64).reshape(5, 8, 8, 1) % 9) / 8.0).astype(np.float32))
+        with tf.GradientTape() as tape:
+            tape.watch(xs)
+            out = model(xs)
+            sc = tf.reduce_sum(out * tf.constant([[1.0, -0.5, 2.0]]))
+        return np.asarray(out).tobytes() + np.asarray(tape.gradient(sc, xs)).tobytes()
+    fingerprint_before = user_model_fingerprint()
     eager_before = tf.config.functions_run_eagerly()
     if what in RANDOM:
         tf.config.run_functions_eagerly(True)
@@ -297,14 +331,14 @@ def run_history(case):
             obj = make_object(what, model, x0, t0, bl(), bs=BS)
         else:
             seeded(case["model_seed"])
-            obj = make_object(what, model, bs=BS)
+            obj = make_object(what, model, bs=BS, ol=OL)
         for c in case["calls"]:
             x, t, e = call_data(c)
             xb, tb, eb = x.tobytes(), t.tobytes(), e.tobytes()
             for target_list, o in ((results, obj), (fresh, None)):
                 if o is None:
                     seeded(case["model_seed"])
-                    o = make_object(what, model, *((x0, t0, bl()) if is_metric else ()), bs=BS)
+                    o = make_object(what, model, *((x0, t0, bl()) if is_metric else ()), bs=BS, ol=OL)
                 seeded(c["seed"])
                 if not is_metric:
                     out = np.asarray(o.explain(x, t))
@@ -317,6 +351,8 @@ def run_history(case):
                 target_list.append([float(v) for v in np.asarray(out, dtype=np.float64).reshape(-1)])
             untouched = untouched and x.tobytes() == xb and t.tobytes() == tb and e.tobytes() == eb
         weights_same = [w.tobytes() for w in model.get_weights()] == weights_before
+        # the user's model object still computes the same values and the same (true) gradients
+        weights_same = weights_same and user_model_fingerprint() == fingerprint_before
         if is_metric:
             untouched = untouched and all(k.tobytes() == pristine.tobytes() for k in keep)
         if case.get("reweight"):
@@ -324,11 +360,11 @@ def run_history(case):
             # compared with the same method on a never-seen twin model holding those weights
             w2 = [(w * 0.5 + 0.25).astype(np.float32) for w in model.get_weights()]
             model.set_weights(w2)
-            twin = conv_model(case["model_seed"], weights=w2)
+            twin = conv_model(case["model_seed"], weights=w2, standalone_relu=SR)
             x, t, _ = call_data(case["calls"][0])
             for target_list, mdl in ((results, model), (fresh, twin)):
                 seeded(case["model_seed"])
-                o = make_object(what, mdl, bs=BS)
+                o = make_object(what, mdl, bs=BS, ol=OL)
                 seeded(case["calls"][0]["seed"])
                 target_list.append([float(v) for v in np.asarray(o.explain(x, t), dtype=np.float64).reshape(-1)])
     finally:
